@@ -181,3 +181,50 @@ def stock_case(sc):
                                int(np.count_nonzero(mu.real < -tol)))),
                pf_nonneg=bool(np.all(pf >= 0)), pf_sum_ok=bool(np.all(np.abs(pf.sum(axis=1) - 1) <= 2e-3)))
     return rec
+
+
+def sweep_case(sc):
+    """EIG.sweep over a time-constant parameter (the documented example sweeps an inertia) and over a gain: the eigenvalues of
+    every sweep point must be those of a fresh System carrying that value (spectrum compared against the fresh state matrix)."""
+    from andes.shared import matrix
+    ss = load_case(sc["case"])
+    ss.TDS.config.no_tqdm = 1
+    rec = dict(case=sc["case"], param=sc["param"])
+    if not ss.PFlow.run():
+        return dict(rec, skipped="pflow")
+    if sc.get("run_first", True) and not ss.EIG.run():
+        return dict(rec, skipped="eig refused")
+    mname, pname = sc["param"].split(".")
+    mdl = ss.models[mname]
+    if mdl.n == 0:
+        return dict(rec, skipped="no device")
+    par = mdl.params[pname]
+    v0 = float(par.v[0])
+    vals = [v0 * f for f in sc.get("factors", (1.0, 2.0, 0.5))]
+    try:
+        res = ss.EIG.sweep(par, mdl.idx.v[0], vals)
+    except Exception as ex:
+        return dict(rec, raised=True, raised_text="%s: %s" % (type(ex).__name__, str(ex)[:120]), ok=False, worst=-1.0)
+    worst = 0.0
+    ok = isinstance(res, dict) and len(res) == len(vals)
+    detail = []
+    if ok:
+        for k, v in enumerate(vals):
+            ref = load_case(sc["case"])
+            ref.TDS.config.no_tqdm = 1
+            ref.PFlow.run()
+            ref.models[mname].params[pname].v[0] = v          # before the dynamic initialisation: picked up by it
+            if not ref.EIG.run():
+                return dict(rec, skipped="reference refused")
+            A = np.array(matrix(ref.EIG.As))
+            mus = np.asarray(res[k]["mu"]).ravel()
+            scale = max(1.0, float(np.linalg.norm(A, 2)))
+            good = len(mus) == A.shape[0]
+            if good:
+                eye = np.eye(A.shape[0])
+                smin = max(np.linalg.svd(A - m * eye, compute_uv=False)[-1] for m in mus)
+                worst = max(worst, float(smin / scale))
+                good = bool(smin <= sc.get("tol", 1e-6) * scale)
+            detail.append(dict(value=v, n=int(len(mus)), agrees=bool(good)))
+            ok = ok and good
+    return dict(rec, raised=False, ok=bool(ok), worst=worst, detail=detail)
